@@ -6,6 +6,7 @@ for S in "$@"; do
   for ID in $(python3 -c "import json;print(' '.join(c['property_id'] for c in json.load(open('$HERE/MANIFEST.json'))['checks']))"); do
     OUT=$(VERIF_SEED=$S "$HERE/run" "$ID" "$TIER" 2>&1); RC=$?
     echo "seed=$S rc=$RC $(echo "$OUT" | tail -1 | cut -c1-200)"
-    [ $RC -ne 0 ] && echo "$OUT" | grep -v '^VIOLATION' | head -5 | cut -c1-300
+    if [ $RC -ne 0 ]; then BAD=1; echo "$OUT" | grep -v '^VIOLATION' | head -5 | cut -c1-300; fi
   done
 done
+exit ${BAD:-0}
